@@ -181,7 +181,7 @@ impl Property for C14 {
     fn budget(&self, tier: Tier) -> Budget {
         match tier {
             Tier::Quick => Budget {
-                seconds: 25,
+                seconds: 60,
                 max_cases: 60_000,
             },
             Tier::Thorough => Budget {
